@@ -1,7 +1,662 @@
-//! C08 — not implemented yet.
-use vmon::report::Args;
+//! C08 — cleanup never removes anything a retained version needs.
+//!
+//! Leg A (histories): tags, deletions, compaction, indices, orphan files of writes crashed on
+//! purpose, ageing, then cleanup under random policies (explicit and auto-cleanup config). Oracle
+//! after every step that deleted objects: retained versions (latest, tagged, policy-kept) are still
+//! listed, readable and equal to their snapshots; no deleted object is referenced by a retained
+//! manifest (reference sets recomputed by crate::walker); deleted manifests were selected by the
+//! policy; with delete_unverified=false no young object referenced by no manifest is deleted.
+//! Leg B (race): cleanup actor vs writer actor under the gate scheduler, writer parked at each of
+//! its storage calls in turn.
+use crate::hist::{Extra, Hist, HistCfg, Loc, OpKind, PolicyDesc, StepRec, Weights};
+use crate::walker::{walk, RawStore};
+use chrono::{DateTime, Utc};
+use lance::dataset::optimize::{compact_files, CompactionOptions};
+use lance::dataset::WriteMode;
+use lance_index::scalar::{BuiltinIndexType, ScalarIndexParams};
+use lance_index::{DatasetIndexExt, IndexType};
+use serde_json::{json, Value};
+use std::collections::{BTreeMap, BTreeSet};
+use vmon::prng::Rng;
+use vmon::report::{Args, Report};
+use vmon::store::{Kind, Sched, Strategy, World};
+use vmon::table::{scan_rows, Actor, ColTy, IdAlloc, ScanOpts, TableSpec};
 
-pub fn run(_args: &Args) -> i32 {
-    eprintln!("HARNESS-ERROR C08 not implemented");
-    2
+fn weights() -> Weights {
+    use OpKind::*;
+    vec![
+        (10, Append),
+        (6, DeleteIds),
+        (4, Update),
+        (3, Upsert),
+        (7, Compact),
+        (4, CreateIndex),
+        (2, OptimizeIndices),
+        (2, Overwrite),
+        (3, Restore),
+        (5, TagCreate),
+        (2, TagUpdate),
+        (2, TagDelete),
+        (6, CrashedAppend),
+        (3, Age),
+        (12, Cleanup),
+        (3, AutoCleanupConfig),
+        (1, AddColumn),
+        (1, DropColumn),
+    ]
+}
+
+pub fn run(args: &Args) -> i32 {
+    if args.extra.contains_key("selftest") {
+        return selftest();
+    }
+    let report = Report::new(
+        args,
+        "exploration",
+        "leg A: case = seeded history (<=12 quick / <=40 thorough ops) with tags, deletions, compaction, indices, writes crashed on purpose (orphans), mtime ageing by 8 days, cleanup under random policies (before_version, before_timestamp from real manifest timestamps, retain_n, older_than, delete_unverified, error_if_tagged) and auto-cleanup config; oracle on every step that deleted objects. leg B: cleanup racing one writer op (append/delete/compaction/index build) under the gate scheduler with the writer parked at its k-th storage call, every k (sampled in quick). Non-trivial (A) = a cleanup that deleted >=1 object while >=2 versions were retained; (B) = schedule in which both actors issued storage calls after the park point; distinct by (config, op kinds, outcomes) resp. (writer op, k).",
+        (80, 900),
+    )
+    .with_min_nontrivial(10);
+    let max_ops = args.tier.pick(12usize, 40);
+    let max_cases = args.tier.pick(4000u64, 200_000);
+    if let Some(c) = args.extra.get("case").and_then(|c| c.parse::<u64>().ok()) {
+        std::env::set_var("E_HIST_VERBOSE", "1");
+        let rt = tokio::runtime::Builder::new_current_thread().enable_all().build().unwrap();
+        if c % 4 == 3 {
+            rt.block_on(race_case(args.seed, c, args.tier == vmon::report::Tier::Thorough, &report));
+        } else {
+            rt.block_on(hist_case(args.seed, c, max_ops, &report));
+        }
+        return report.finish();
+    }
+    let thorough = args.tier == vmon::report::Tier::Thorough;
+    crate::hist::run_parallel(&report, args, 16, max_cases, 240, |i, report| {
+        if i % 4 == 3 {
+            Box::pin(race_case(args.seed, i, thorough, report))
+        } else {
+            Box::pin(hist_case(args.seed, i, max_ops, report))
+        }
+    });
+    report.finish()
+}
+
+/// Own statement of what a policy selects for removal.
+pub fn selected_by_policy(
+    p: &PolicyDesc,
+    versions: &[(u64, DateTime<Utc>)],
+    latest: u64,
+    tagged: &BTreeSet<u64>,
+) -> (BTreeSet<u64>, BTreeSet<u64>) {
+    let mut bv = p.before_version;
+    if let Some(n) = p.retain_n {
+        // keep the last n versions that exist
+        let vs: Vec<u64> = versions.iter().map(|v| v.0).collect();
+        bv = Some(if vs.len() <= n { vs[0] } else { vs[vs.len() - n] });
+    }
+    let matches = |v: u64, ts: DateTime<Utc>| -> bool {
+        bv.map(|b| v < b).unwrap_or(true) && p.before_timestamp.map(|t| ts < t).unwrap_or(true)
+    };
+    let mut selected = BTreeSet::new();
+    let mut tagged_old = BTreeSet::new();
+    for (v, ts) in versions {
+        if *v >= latest {
+            continue;
+        }
+        if matches(*v, *ts) {
+            if tagged.contains(v) {
+                tagged_old.insert(*v);
+            } else {
+                selected.insert(*v);
+            }
+        }
+    }
+    (selected, tagged_old)
+}
+
+struct DeleteView {
+    /// successfully deleted object paths of the step
+    deleted: Vec<String>,
+}
+
+fn deletes_of(world: &World, rec: &StepRec) -> DeleteView {
+    let ev = world.events_since(rec.log_from);
+    let n = (rec.log_to - rec.log_from).min(ev.len());
+    DeleteView {
+        deleted: ev[..n]
+            .iter()
+            .filter(|e| e.kind == Kind::Delete && e.applied)
+            .map(|e| e.path.clone())
+            .collect(),
+    }
+}
+
+async fn hist_case(seed: u64, case: u64, max_ops: usize, report: &Report) {
+    let mut rng = Rng::for_case(seed, case);
+    let mut cfg = HistCfg::random(&mut rng);
+    cfg.auto_cleanup_default = false; // auto cleanup is configured explicitly by AutoCleanupConfig
+    let n_ops = rng.urange(6, max_ops);
+    let w = weights();
+    let mut h = Hist::mem(rng.clone(), cfg);
+    h.case = case;
+    let rec = h.create_table("memory://t0").await;
+    if !rec.outcome.is_ok() {
+        report.harness_error(&format!("case {case}: create failed: {}", rec.outcome.text()));
+        return;
+    }
+    let loc = Loc::main("memory://t0");
+    let world = h.env.world().unwrap().clone();
+    let mut nontrivial_cleanups = 0u64;
+    let mut orphans: BTreeSet<String> = BTreeSet::new();
+    for _ in 0..n_ops {
+        if !report.time_left() {
+            break;
+        }
+        let kind: OpKind = *rng.pick_weighted(&w);
+        // everything that exists right before the step (retained + snapshots of all listed versions)
+        let before_snaps: BTreeMap<u64, crate::snap::Snapshot> = h.lin[&loc].snaps.clone();
+        let auto_cfg: BTreeMap<String, String> = before_snaps
+            .values()
+            .last()
+            .map(|s| s.config.iter().filter(|(k, _)| k.starts_with("lance.auto_cleanup.")).map(|(k, v)| (k.clone(), v.clone())).collect())
+            .unwrap_or_default();
+        let tagged_before = h.tagged_versions(&loc.table);
+        let latest_before = h.lin[&loc].latest();
+        let rec = h.step(kind).await;
+        if let Extra::Crash { orphans: o, committed: false, .. } = &rec.extra {
+            for p in o {
+                orphans.insert(p.clone());
+            }
+            report.count("orphan_objects_created", o.len() as u64);
+        }
+        let dv = deletes_of(&world, &rec);
+        report.count("store_events_inspected", (rec.log_to - rec.log_from) as u64);
+        if dv.deleted.is_empty() && rec.removed_versions.is_empty() && kind != OpKind::Cleanup {
+            continue;
+        }
+        report.count("delete_events_inspected", dv.deleted.len() as u64);
+        let ctx = |h: &Hist| json!({"seed": seed, "case": case, "config": h.cfg.describe(), "step": rec.brief(), "ops": h.ops_json(48)});
+
+        // ---- which versions had to survive?
+        let versions: Vec<(u64, DateTime<Utc>)> = before_snaps.iter().map(|(v, s)| (*v, s.timestamp)).collect();
+        let removed: BTreeSet<u64> = rec.removed_versions.iter().filter(|(l, _)| *l == loc).map(|(_, v)| *v).collect();
+        let (must_survive, explicit): (BTreeSet<u64>, bool) = match (&rec.extra, kind) {
+            (Extra::Cleanup { policy, before, tagged, latest, .. }, OpKind::Cleanup) => {
+                let (selected, tagged_old) = selected_by_policy(policy, before, *latest, tagged);
+                report.count("cleanups_run", 1);
+                if policy.error_if_tagged && !tagged_old.is_empty() {
+                    // documented: refuse. A refusal must be clean.
+                    report.count("cleanups_expected_to_refuse_tagged", 1);
+                    if rec.outcome.is_ok() {
+                        report.count("cleanup_did_not_refuse_tagged_old_version", 1);
+                    } else if !dv.deleted.is_empty() {
+                        report.violation(
+                            "refused-cleanup-deleted-objects",
+                            &format!("cleanup returned '{}' but deleted {} objects", rec.outcome.text(), dv.deleted.len()),
+                            json!({"ctx": ctx(&h), "deleted": dv.deleted.iter().take(10).collect::<Vec<_>>()}),
+                        );
+                    }
+                }
+                (before.iter().map(|v| v.0).filter(|v| !selected.contains(v)).collect(), true)
+            }
+            _ => {
+                // auto cleanup triggered by a commit (or nothing should have been deleted at all)
+                let interval = auto_cfg.get("lance.auto_cleanup.interval");
+                if interval.is_none() {
+                    let allowed = matches!(kind, OpKind::TagDelete | OpKind::CrashedAppend);
+                    if !allowed && !dv.deleted.is_empty() {
+                        // commits may delete their own temporary objects (e.g. staged manifests);
+                        // what matters: nothing a manifest references, checked below
+                    }
+                    (versions.iter().map(|v| v.0).collect(), false)
+                } else {
+                    report.count("auto_cleanup_candidate_steps", 1);
+                    let older = auto_cfg.get("lance.auto_cleanup.older_than").cloned();
+                    let retain: Option<usize> = auto_cfg.get("lance.auto_cleanup.retain_versions").and_then(|s| s.parse().ok());
+                    let mut keep: BTreeSet<u64> = BTreeSet::new();
+                    keep.insert(latest_before);
+                    keep.extend(tagged_before.iter().copied());
+                    // loosest admissible reading: "0s" => everything older than now may go;
+                    // "1000days" => nothing may go; retain n => the last n of the listing that
+                    // includes the version just committed
+                    if older.as_deref() == Some("1000days") {
+                        keep.extend(versions.iter().map(|v| v.0));
+                    }
+                    if let Some(n) = retain {
+                        let mut all: Vec<u64> = versions.iter().map(|v| v.0).collect();
+                        all.extend(rec.new_versions.iter().filter(|(l, _)| *l == loc).map(|(_, v)| *v));
+                        all.sort();
+                        all.dedup();
+                        let k = all.len().saturating_sub(n);
+                        keep.extend(all[k..].iter().copied());
+                    }
+                    (keep, false)
+                }
+            }
+        };
+
+        // ---- (a) retained versions are still listed, readable, equal
+        let lin = &h.lin[&loc];
+        let mut retained_now = 0u64;
+        for v in &must_survive {
+            if removed.contains(v) || !lin.snaps.contains_key(v) {
+                let class = if tagged_before.contains(v) {
+                    "cleanup-removed-tagged-version"
+                } else if *v == latest_before {
+                    "cleanup-removed-latest-version"
+                } else if explicit {
+                    "cleanup-removed-manifest-not-selected-by-policy"
+                } else {
+                    "auto-cleanup-removed-version-its-config-keeps"
+                };
+                report.violation(
+                    class,
+                    &format!("v{v} had to survive step {} ({}) but is no longer listed", rec.idx, kind.name()),
+                    json!({"ctx": ctx(&h), "version": v, "auto_cleanup_config": auto_cfg, "versions_before": versions.iter().map(|x| x.0).collect::<Vec<_>>(), "removed": removed}),
+                );
+                continue;
+            }
+            retained_now += 1;
+            let r = h.recheck_version(&loc, *v, true).await;
+            report.count("retained_versions_reread", 1);
+            match r {
+                Ok(None) => {}
+                Ok(Some((class, detail))) => {
+                    report.violation(
+                        &format!("retained-version-{class}-after-cleanup"),
+                        &format!("v{v} differs from its snapshot after step {} ({})", rec.idx, kind.name()),
+                        json!({"ctx": ctx(&h), "version": v, "diff": detail}),
+                    );
+                }
+                Err(e) => {
+                    report.violation(
+                        "retained-version-unreadable-after-cleanup",
+                        &format!("v{v} cannot be read after step {} ({}): {}", rec.idx, kind.name(), e.chars().take(300).collect::<String>()),
+                        json!({"ctx": ctx(&h), "version": v, "error": e}),
+                    );
+                }
+            }
+            // and it must still validate
+            if let Ok(ds) = h.open_at(&loc, Some(*v), true).await {
+                let w = walk(&ds, &h.env.raw(), true).await;
+                report.count("retained_versions_validated", 1);
+                if let Some((sig, d)) = w.problems.first() {
+                    // only failures that a deleted object explains belong to this property
+                    if sig.contains("missing") || sig.contains("unreadable") || d.contains("not found") || d.contains("Not found") {
+                        report.violation(
+                            &format!("retained-version-{sig}-after-cleanup"),
+                            &format!("v{v}: {d}"),
+                            json!({"ctx": ctx(&h), "version": v, "problems": w.problems}),
+                        );
+                    }
+                }
+            }
+        }
+
+        // ---- (b) no deleted object is referenced by a version that had to survive; (c) deleted
+        // manifests were selected; (d) young unverified objects survive
+        let all_refs: Vec<(u64, &crate::walker::RefSet)> = before_snaps.iter().map(|(v, s)| (*v, &s.refs)).collect();
+        let du = match &rec.extra {
+            Extra::Cleanup { policy, .. } => policy.delete_unverified,
+            _ => false,
+        };
+        for p in &dv.deleted {
+            let mut referenced_by_any = false;
+            for (v, refs) in &all_refs {
+                if let Some(kind_of) = refs.references(p) {
+                    referenced_by_any = true;
+                    if must_survive.contains(v) {
+                        let class = if kind_of == "manifest" {
+                            continue; // reported by (a)
+                        } else {
+                            format!("cleanup-deleted-{kind_of}-file-referenced-by-retained-version")
+                        };
+                        report.violation(
+                            &class,
+                            &format!("step {} ({}) deleted {} which v{} references", rec.idx, kind.name(), p, v),
+                            json!({"ctx": ctx(&h), "path": p, "version": v, "must_survive": must_survive}),
+                        );
+                    }
+                }
+            }
+            let is_manifest = p.contains("/_versions/") && p.ends_with(".manifest");
+            let under_table = p.starts_with("t0/data/") || p.starts_with("t0/_deletions/") || p.starts_with("t0/_indices/") || p.starts_with("t0/_transactions/");
+            if !du && !referenced_by_any && !is_manifest && under_table && !h.aged_paths.contains(p) && kind == OpKind::Cleanup {
+                report.violation(
+                    "cleanup-deleted-young-object-referenced-by-no-manifest",
+                    &format!("delete_unverified=false but {} (younger than 7 days, in no manifest{}) was deleted", p, if orphans.contains(p) { ", orphan of a crashed write" } else { "" }),
+                    json!({"ctx": ctx(&h), "path": p, "is_crash_orphan": orphans.contains(p)}),
+                );
+            }
+            if !referenced_by_any && under_table {
+                report.count(if h.aged_paths.contains(p) { "aged_unverified_objects_deleted" } else { "young_unverified_objects_deleted_with_delete_unverified" }, 1);
+            }
+        }
+        // young orphans that survived a delete_unverified=false cleanup (the positive observation)
+        if kind == OpKind::Cleanup && rec.outcome.is_ok() && !du {
+            let now: BTreeSet<String> = world.list_paths().await.into_iter().collect();
+            let survived = orphans.iter().filter(|p| !h.aged_paths.contains(*p) && now.contains(*p)).count();
+            report.count("young_orphans_seen_surviving_cleanup", survived as u64);
+        }
+        if kind == OpKind::Cleanup && rec.outcome.is_ok() && !dv.deleted.is_empty() && retained_now >= 2 {
+            nontrivial_cleanups += 1;
+        }
+        if !removed.is_empty() {
+            report.count("versions_removed_by_cleanup", removed.len() as u64);
+        }
+    }
+    if std::env::var("E_HIST_VERBOSE").is_ok() {
+        println!("config: {}", h.cfg.describe());
+        for s in &h.steps {
+            println!("{}", s.brief());
+        }
+        for p in &h.problems {
+            println!("PROBLEM {p}");
+        }
+        for p in &h.model_disagreements {
+            println!("MODEL {p}");
+        }
+    }
+    h.count_ops(report);
+    let nontrivial = nontrivial_cleanups >= 1;
+    report.case(if nontrivial { Some(h.shape_sig()) } else { None });
+    if report.want_sample() && nontrivial && report.counter("samples_leg_a") < 3 {
+        report.count("samples_leg_a", 1);
+        report.sample(json!({"leg": "A", "case": case, "config": h.cfg.describe(), "nontrivial_cleanups": nontrivial_cleanups,
+                             "versions_left": h.lin[&loc].snaps.keys().collect::<Vec<_>>(), "versions_removed": h.lin[&loc].removed.keys().collect::<Vec<_>>(),
+                             "ops": h.ops_json(14)}));
+    }
+}
+
+// ---------------------------------------------------------------------------------------------
+// leg B: race
+// ---------------------------------------------------------------------------------------------
+
+#[derive(Clone, Copy, Debug)]
+enum WriterOp {
+    Append,
+    Delete,
+    Compact,
+    Index,
+}
+
+async fn run_writer(a: &Actor, uri: &str, op: WriterOp, spec: &TableSpec, seed: u64) -> Result<u64, String> {
+    let mut ds = a.open(uri).await.map_err(|e| e.to_string())?;
+    match op {
+        WriterOp::Append => {
+            let mut rng = Rng::new(seed);
+            let ids: Vec<i64> = (1000..1010).collect();
+            let b = spec.batch(&mut rng, &ids);
+            let reader = arrow_array::RecordBatchIterator::new(vec![Ok(b.clone())], b.schema());
+            let mut p = a.write_params(WriteMode::Append);
+            p.max_rows_per_file = 5;
+            ds.append(reader, Some(p)).await.map_err(|e| e.to_string())?;
+        }
+        WriterOp::Delete => ds.delete("id % 3 = 0").await.map_err(|e| e.to_string())?,
+        WriterOp::Compact => {
+            compact_files(
+                &mut ds,
+                CompactionOptions {
+                    target_rows_per_fragment: 1000,
+                    materialize_deletions_threshold: 0.0,
+                    ..Default::default()
+                },
+                None,
+            )
+            .await
+            .map_err(|e| e.to_string())?;
+        }
+        WriterOp::Index => {
+            ds.create_index(&["v"], IndexType::BTree, Some("v_idx".into()), &ScalarIndexParams::for_builtin(BuiltinIndexType::BTree), true)
+                .await
+                .map_err(|e| e.to_string())?;
+        }
+    }
+    Ok(ds.manifest().version)
+}
+
+fn expected_ids(pre: &BTreeSet<i64>, op: WriterOp) -> BTreeSet<i64> {
+    match op {
+        WriterOp::Append => pre.iter().copied().chain(1000..1010).collect(),
+        WriterOp::Delete => pre.iter().copied().filter(|i| i % 3 != 0).collect(),
+        _ => pre.clone(),
+    }
+}
+
+async fn race_case(seed: u64, case: u64, thorough: bool, report: &Report) {
+    let mut rng = Rng::for_case(seed, case);
+    let op = *rng.pick(&[WriterOp::Append, WriterOp::Delete, WriterOp::Compact, WriterOp::Index]);
+    let stable = rng.bool();
+    let uri = "memory://r0";
+    // ---- pre-state: several versions, some deletions, small fragments
+    let world0 = World::memory();
+    let a0 = Actor::new(world0.new_actor(0));
+    let spec = TableSpec::simple(&[("v", ColTy::I32, true), ("s", ColTy::Utf8, true)]);
+    let mut ids = IdAlloc::new(0);
+    let mut p = a0.write_params(WriteMode::Create);
+    p.enable_stable_row_ids = stable;
+    p.max_rows_per_file = 6;
+    p.auto_cleanup = None;
+    let b = spec.batch(&mut rng, &ids.take(20));
+    let mut ds = match a0.write(uri, vec![b], p).await {
+        Ok(d) => d,
+        Err(e) => {
+            report.harness_error(&format!("race pre-state: {e}"));
+            return;
+        }
+    };
+    for _ in 0..rng.urange(1, 3) {
+        let b = spec.batch(&mut rng, &ids.take(7));
+        let reader = arrow_array::RecordBatchIterator::new(vec![Ok(b.clone())], b.schema());
+        let mut p = a0.write_params(WriteMode::Append);
+        p.max_rows_per_file = 6;
+        if ds.append(reader, Some(p)).await.is_err() {
+            return;
+        }
+    }
+    let _ = ds.delete("id % 5 = 1").await;
+    if rng.bool() {
+        let _ = ds.delete("id % 7 = 2").await;
+    }
+    let pre_latest = ds.manifest().version;
+    let pre_ids: BTreeSet<i64> = match scan_rows(&ds, &ScanOpts::default()).await {
+        Ok((n, rows)) => {
+            let k = n.iter().position(|x| x == "id").unwrap_or(0);
+            rows.iter().filter_map(|r| r[k].as_i64()).collect()
+        }
+        Err(_) => return,
+    };
+    let snap = world0.snapshot().await;
+
+    // ---- dry run: number of storage calls of the writer alone
+    let m_calls = {
+        let w = World::from_snapshot(&snap).await;
+        let a = Actor::new(w.new_actor(2));
+        let r = run_writer(&a, uri, op, &spec, seed).await;
+        if r.is_err() {
+            report.count("race_writer_dry_run_failed", 1);
+            return;
+        }
+        a.store.total_calls()
+    };
+    report.count("race_scenarios", 1);
+    let ks: Vec<u64> = if thorough || m_calls <= 10 {
+        (0..=m_calls).collect()
+    } else {
+        let mut v: Vec<u64> = rng.sample_indices(m_calls as usize + 1, 10).into_iter().map(|x| x as u64).collect();
+        v.sort();
+        v
+    };
+    for k in ks {
+        if !report.time_left() {
+            break;
+        }
+        let w = World::from_snapshot(&snap).await;
+        let cleaner = Actor::new(w.new_actor(1));
+        let writer = Actor::new(w.new_actor(2));
+        let cds = match cleaner.open(uri).await {
+            Ok(d) => d,
+            Err(e) => {
+                report.harness_error(&format!("race: cleaner cannot open: {e}"));
+                return;
+            }
+        };
+        let sched = Sched::new();
+        w.set_sched(Some(sched.clone()));
+        sched.begin(1);
+        sched.begin(2);
+        let s1 = sched.clone();
+        let hc = tokio::spawn(async move {
+            let r = cds.cleanup_old_versions(chrono::Duration::zero(), Some(false), Some(false)).await;
+            s1.end(1);
+            r.map(|s| (s.old_versions, s.bytes_removed)).map_err(|e| e.to_string())
+        });
+        let s2 = sched.clone();
+        let (wr, spec2) = (writer.clone(), spec.clone());
+        let hw = tokio::spawn(async move {
+            let r = run_writer(&wr, uri, op, &spec2, seed).await;
+            s2.end(2);
+            r
+        });
+        // writer first for k calls, then the cleaner to completion, then the writer
+        let mut script = vec![2usize; k as usize];
+        script.extend(std::iter::repeat(1usize).take(400));
+        script.extend(std::iter::repeat(2usize).take(400));
+        let out = sched.run(Strategy::Script(script, 0), std::time::Duration::from_secs(90)).await;
+        let rc = hc.await;
+        let rw = hw.await;
+        w.set_sched(None);
+        report.count("race_schedules_run", 1);
+        report.count("race_gated_calls_released", out.released.len() as u64);
+        report.count("race_nondeterministic_steps", out.nondeterministic_steps);
+        if out.watchdog_fired {
+            report.inconclusive(&format!("race case {case} k={k}: scheduler watchdog fired"));
+            continue;
+        }
+        let (Ok(rc), Ok(rw)) = (rc, rw) else {
+            report.violation(
+                "panic-in-cleanup-or-writer-while-racing",
+                &format!("writer {:?} parked at call {k}", op),
+                json!({"seed": seed, "case": case, "op": format!("{op:?}"), "k": k}),
+            );
+            continue;
+        };
+        let deleted: Vec<String> = w.events().iter().filter(|e| e.kind == Kind::Delete && e.applied && e.actor == 1).map(|e| e.path.clone()).collect();
+        report.count("race_delete_events_inspected", deleted.len() as u64);
+        let both_active = out.released.iter().skip(k as usize).any(|r| r.actor == 1) && out.released.iter().skip(k as usize).any(|r| r.actor == 2);
+        let ctx = json!({"seed": seed, "case": case, "writer_op": format!("{op:?}"), "parked_at_call": k, "writer_calls_alone": m_calls,
+                         "stable_row_ids": stable, "cleanup_result": format!("{rc:?}"), "writer_result": format!("{rw:?}"),
+                         "cleanup_deleted": deleted.iter().take(20).collect::<Vec<_>>(), "schedule": out.brief(60)});
+        // ---- verdict
+        let reader = Actor::new(w.new_actor(0));
+        let latest = match reader.open(uri).await {
+            Ok(d) => d,
+            Err(e) => {
+                report.violation(
+                    "table-unopenable-after-cleanup-race",
+                    &e.to_string(),
+                    ctx.clone(),
+                );
+                continue;
+            }
+        };
+        match &rw {
+            Err(_) => {
+                report.count("race_writer_failed_admissible", 1);
+            }
+            Ok(v) => {
+                report.count("race_writer_committed", 1);
+                if latest.manifest().version < *v {
+                    report.violation(
+                        "writer-ok-but-its-version-is-not-visible-after-cleanup-race",
+                        &format!("writer returned v{v}, latest is v{}", latest.manifest().version),
+                        ctx.clone(),
+                    );
+                    continue;
+                }
+            }
+        }
+        let raw = RawStore::World(w.clone());
+        let wk = walk(&latest, &raw, true).await;
+        report.count("race_versions_validated", 1);
+        if let Some((sig, d)) = wk.problems.first() {
+            report.violation(
+                &format!("latest-after-cleanup-race-{sig}"),
+                &format!("writer {:?} parked at call {k}, writer result {:?}: {d}", op, rw),
+                json!({"ctx": ctx, "problems": wk.problems}),
+            );
+            continue;
+        }
+        // deleted objects must not be referenced by the latest manifest
+        for p in &deleted {
+            if let Some(kind_of) = wk.refs.references(p) {
+                report.violation(
+                    &format!("cleanup-race-deleted-{kind_of}-file-referenced-by-latest"),
+                    &format!("{p} deleted by cleanup but referenced by v{}", latest.manifest().version),
+                    ctx.clone(),
+                );
+            }
+        }
+        // contents
+        if let Ok((n, rows)) = scan_rows(&latest, &ScanOpts::default()).await {
+            let kk = n.iter().position(|x| x == "id").unwrap_or(0);
+            let got: BTreeSet<i64> = rows.iter().filter_map(|r| r[kk].as_i64()).collect();
+            let want = if rw.is_ok() { expected_ids(&pre_ids, op) } else { pre_ids.clone() };
+            report.count("race_rows_compared", rows.len() as u64);
+            if got != want || got.len() != rows.len() {
+                report.violation(
+                    "rows-after-cleanup-race-differ-from-serial-outcome",
+                    &format!("writer {:?} k={k} result {:?}: {} rows, expected {}", op, rw, rows.len(), want.len()),
+                    json!({"ctx": ctx, "missing": want.difference(&got).take(10).collect::<Vec<_>>(), "unexpected": got.difference(&want).take(10).collect::<Vec<_>>()}),
+                );
+            }
+        }
+        let _ = pre_latest;
+        let sig = vmon::prng::fnv_str(&format!("race:{op:?}:{stable}:{k}:{}", rw.is_ok()));
+        report.case(if both_active { Some(sig) } else { None });
+        if report.want_sample() && both_active && report.counter("samples_leg_b") < 3 {
+            report.count("samples_leg_b", 1);
+            report.sample(json!({"leg": "B", "ctx": ctx}));
+        }
+    }
+}
+
+fn selftest() -> i32 {
+    // policy model + reference-set oracle on synthetic observations
+    let t = |s: i64| DateTime::<Utc>::from_timestamp(1_700_000_000 + s, 0).unwrap();
+    let versions = vec![(1u64, t(1)), (2, t(2)), (3, t(3)), (4, t(4)), (5, t(5))];
+    let mut tagged = BTreeSet::new();
+    tagged.insert(2u64);
+    let base = PolicyDesc { before_version: None, before_timestamp: None, retain_n: None, delete_unverified: false, error_if_tagged: false, api: "policy" };
+    let mut fails = vec![];
+    let (s, told) = selected_by_policy(&PolicyDesc { before_version: Some(4), ..base.clone() }, &versions, 5, &tagged);
+    if s != [1u64, 3].into_iter().collect() || told != [2u64].into_iter().collect() {
+        fails.push(format!("before_version: {s:?} {told:?}"));
+    }
+    let (s, _) = selected_by_policy(&PolicyDesc { before_timestamp: Some(t(3)), ..base.clone() }, &versions, 5, &tagged);
+    if s != [1u64].into_iter().collect() {
+        fails.push(format!("before_timestamp: {s:?}"));
+    }
+    let (s, _) = selected_by_policy(&PolicyDesc { retain_n: Some(2), ..base.clone() }, &versions, 5, &tagged);
+    if s != [1u64, 3].into_iter().collect() {
+        fails.push(format!("retain 2: {s:?}"));
+    }
+    let (s, _) = selected_by_policy(&PolicyDesc { retain_n: Some(9), ..base.clone() }, &versions, 5, &tagged);
+    if !s.is_empty() {
+        fails.push(format!("retain 9: {s:?}"));
+    }
+    let mut refs = crate::walker::RefSet::default();
+    refs.data.insert("t0/data/a.lance".into());
+    refs.index_dirs.insert("t0/_indices/u1".into());
+    if refs.references("t0/data/a.lance") != Some("data") || refs.references("t0/_indices/u1/page.lance") != Some("index") || refs.references("t0/_indices/u10/x").is_some() {
+        fails.push("RefSet::references".into());
+    }
+    if fails.is_empty() {
+        println!("SELFTEST C08 ok");
+        0
+    } else {
+        for f in fails {
+            println!("SELFTEST C08 FAILED: {f}");
+        }
+        2
+    }
 }
